@@ -705,6 +705,28 @@ def u6(prog: Program, chk: Check) -> None:
             "" if timed >= 30 else "fewer time parameters than confirmed by hand")
 
 
+def u7(prog: Program, chk: Check) -> None:
+    chk.rule("U7", "what is computed for one time origin is not served for another: no memo in the "
+             "system classes (dict, lazily set attribute, single-slot or validated cache, closure "
+             "container - also one kept on self or in a dict on self by the closure that "
+             "get_propagators hands out) leaves out of its key anything the stored value depends "
+             "on; the propagator of step n of a time-dependent system belongs to the absolute "
+             "time start_time + n*dt, so a key without start_time makes a second computation with "
+             "the same object and another origin evolve with the first one's Hamiltonian", floor=1)
+    from rules.c20 import memo_findings
+    units = [u for u in prog.units_in("system") if not isinstance(u.node, ast.Lambda)]
+    n = 0
+    for (u, node, construct, missing) in memo_findings(prog, units):
+        n += 1
+        chk.saw(u)
+        chk.add("U7", u, construct, not missing,
+                "identified by everything it depends on" if not missing else
+                f"the stored value depends on {missing}, which is not part of the key: reported "
+                f"times shift with the origin, the states do not", node)
+    chk.add("U7", prog.module("system"), f"{len(units)} functions of system.py scanned, {n} memo "
+            f"idiom(s)", len(units) >= 40, "" if len(units) >= 40 else "the module shrank")
+
+
 def run(prog: Program, chk: Check) -> None:
     chk.explanation = (
         "Decides every place where an absolute time is manufactured or consumed: if each such "
@@ -726,3 +748,4 @@ def run(prog: Program, chk: Check) -> None:
     chk.call(u4, prog, chk)
     chk.call(u5, prog, chk)
     chk.call(u6, prog, chk)
+    chk.call(u7, prog, chk)
